@@ -90,6 +90,10 @@ def make_transport_class():
             self._host = IPv4Address("TCP", *host)
             self.producer = None
             self.nodelay = None
+            # a peer that has stopped reading: octets written from now on stay in the write buffer
+            self.stalled = False
+            self.unsent = 0
+            self.close_waits_for_flush = False
 
         # --- ITransport
         def write(self, data):
@@ -104,6 +108,8 @@ def make_transport_class():
             if data:
                 self.written += data
                 self.write_sizes.append(len(data))
+                if self.stalled:
+                    self.unsent += len(data)
 
         def writeSequence(self, seq):
             for d in seq:
@@ -112,6 +118,11 @@ def make_transport_class():
         def loseConnection(self):
             if self.connected and not self.disconnecting:
                 self.disconnecting = True
+                if self.unsent:
+                    # abstract.FileDescriptor.loseConnection: the connection is only lost once the
+                    # write buffer is flushed - never, towards a peer that does not read
+                    self.close_waits_for_flush = True
+                    return
                 self.calls.append("lose")
 
         def abortConnection(self):
@@ -226,7 +237,8 @@ class Conn:
         self._lost_with(ConnectionDone() if clean else ConnectionLost())
 
     def own_drop_pending(self):
-        return (not self.lost) and self.transport.disconnecting
+        t = self.transport
+        return (not self.lost) and t.disconnecting and (t.aborted or not t.close_waits_for_flush)
 
     def deliver_own_drop(self):
         from twisted.internet.error import ConnectionDone, ConnectionAborted
